@@ -2,6 +2,8 @@
 from __future__ import annotations
 
 import argparse
+import hashlib
+import re
 import importlib
 import json
 import os
@@ -44,7 +46,10 @@ class Plan:
 def native_replay(rec: Dict[str, Any], tag: str) -> Dict[str, Any]:
     d = os.path.join(VERIF, "replays")
     os.makedirs(d, exist_ok=True)
-    path = os.path.join(d, f"{tag}.json")
+    safe = re.sub(r"[^A-Za-z0-9_.=-]", "_", tag)[:80]
+    if safe != tag:
+        safe += "_" + hashlib.sha1(tag.encode("utf-8", "replace")).hexdigest()[:8]
+    path = os.path.join(d, f"{safe}.json")
     with open(path, "w") as fh:
         json.dump(rec, fh, indent=1)
     env = dict(os.environ)
